@@ -32,12 +32,12 @@ ROUTES = ["json", "clone", "h5"]
 
 
 def thresholds(tier):
-  return {"models": 30, "routes_checked": 90, "layers_compared": 150, "predictions_compared": 200,
-          "distinct_nontrivial": 30, "layer_classes_seen": 0}
+  return {"models": 16, "routes_checked": 48, "layers_compared": 100, "predictions_compared": 150,
+          "distinct_nontrivial": 16, "layer_classes_seen": 0}
 
 
 def cases(tier, seed):
-  n = 64 if tier == "quick" else 1000
+  n = 48 if tier == "quick" else 1000
   out = []
   for i in range(n):
     rnd = random.Random(seed * 104729 + i)
